@@ -1,5 +1,8 @@
 import XMT.Drv.Util
 import XMT.Chunk
+import XMT.ChunkRoom
+import XMT.ChunkExact
+import XMT.ChunkPanic
 namespace XMT.Drv.C11
 open XMT XMT.Drv XMT.Chunk
 
@@ -85,6 +88,62 @@ def runSeq (c : Chunk) : List String → Option (List String)
     let rest ← runSeq c' ts
     pure ((out ++ summary c') :: rest)
 
+/-! ### extension round s3: op language `seqx` (exact Seek / positional writes through the
+panic-outcome model, `room` / `refused` printed with every Write, typed wrappers, String, MarshalStream),
+compared at full state granularity incl. cursor and a hash of ALL retained bytes -/
+
+def summaryX (c : Chunk) : String := summary c ++ s!",r={c.rpos},vh={hashBytes c.view}"
+
+def showPos (r : PRes (Chunk × Option Chunk.Err)) (c : Chunk) : Chunk × String :=
+  match r with
+  | .ok (c', e) => (c', s!"e={showErr e}")
+  | .panic _ => (c, "panic")
+
+def stepX (c : Chunk) (tok : String) : Option (Chunk × String) :=
+  match splitOn1 tok ':' with
+  | ["w", h] => do
+    let b ← ofHex h
+    let (c', n, e) := c.write cfGo b
+    let rm : Int := if c.limit > 0 then (Chunk.room c b.length : Int) else -1
+    let rf : Nat := if decide (Chunk.refused c b.length) then 1 else 0
+    pure (c', s!"w={n},{showErr e},room={rm},ref={rf}")
+  | ["pb", p, v] => do
+    let p ← intOf p; let v ← natOf v
+    pure (showPos (Chunk.writePosP true c p [if v = 1 then 1 else 0]) c)
+  | ["p8", p, n] => do let p ← intOf p; let n ← natOf n; pure (showPos (Chunk.writePosP true c p (beN 1 n)) c)
+  | ["p16", p, n] => do let p ← intOf p; let n ← natOf n; pure (showPos (Chunk.writePosP true c p (beN 2 n)) c)
+  | ["p32", p, n] => do let p ← intOf p; let n ← natOf n; pure (showPos (Chunk.writePosP true c p (beN 4 n)) c)
+  | ["p64", p, n] => do let p ← intOf p; let n ← natOf n; pure (showPos (Chunk.writePosP true c p (beN 8 n)) c)
+  | ["wx", k, v, _] => do
+    let k ← natOf k; let v ← natOf v
+    if k = 1 ∨ k = 2 ∨ k = 4 ∨ k = 8 then
+      let (c', e) := c.writeFixed cfGo (beN k v)
+      pure (c', s!"e={showErr e}")
+    else none
+  | ["rx", k, _] => do
+    let k ← natOf k
+    if k = 1 ∨ k = 2 ∨ k = 4 ∨ k = 8 then
+      let (c', r) := c.readFixed k
+      pure (c', match r with | .ok b => s!"v={ofBe b},nil" | .error e => s!"v=0,{showErr (some e)}")
+    else none
+  | ["ws", h] => do
+    let b ← ofHex h
+    let (c', e) := c.writeBytes cfGo b
+    pure (c', s!"e={showErr e}")
+  | ["str"] => pure (c, if c.isEmpty then "str=nil" else s!"str={hexOrDash c.unread}")
+  | ["ms"] =>
+    let (d, e) := (Chunk.empty 0).writeBytes cfGo c.unread
+    pure (c, s!"ms={hexOrDash d.unread},{showErr e}")
+  | _ => step c tok
+
+def runSeqX (c : Chunk) : List String → Option (List String)
+  | [] => some []
+  | t :: ts => do
+    let (c', out) ← stepX c t
+    if out == "panic" then pure ["panic"] else
+    let rest ← runSeqX c' ts
+    pure ((out ++ summaryX c') :: rest)
+
 def handle (args : List String) : String :=
   match args with
   | "seq" :: lim :: toks =>
@@ -92,6 +151,13 @@ def handle (args : List String) : String :=
     | none => "bad-op"
     | some l =>
       match runSeq (Chunk.empty l) toks with
+      | some outs => if outs.isEmpty then "." else " ".intercalate outs
+      | none => "bad-op"
+  | "seqx" :: lim :: toks =>
+    match intOf lim with
+    | none => "bad-op"
+    | some l =>
+      match runSeqX (Chunk.empty l) toks with
       | some outs => if outs.isEmpty then "." else " ".intercalate outs
       | none => "bad-op"
   | _ => "bad-op"
